@@ -76,7 +76,7 @@ def split_top(s, sep=","):
     return out
 
 def r13_chain_tail(text, log):
-    """R13 ("chain-tail peeling"): `for PAT in ITER.chain([E]) { BODY }` -> `{ for PAT in ITER { BODY } { let PAT = E; BODY } }`.
+    """R13 ("chain-tail peeling"): `for PAT in ITER.chain([E]) { BODY }` -> `{ for PAT in ITER { BODY } ; { let PAT = E; BODY } }` (the lone `;` keeps the verus! parser from reading the tail block as a loop clause).
     `Iterator::chain` is a provided trait method and cannot be specified for Verus.  Applied only when the chained tail is a
     ONE-element array literal whose element is a path or a reference to a path (no side effects) and BODY contains no `break`,
     no `continue` and no loop label: then the body runs once per item of ITER and once more for E, in that order, in both forms."""
@@ -107,7 +107,7 @@ def r13_chain_tail(text, log):
             body_toks = toks[sigidx[j] + 1:bclose]
             if any((x.kind == "ident" and x.text in ("break", "continue")) or x.kind == "life" for x in body_toks): continue
             body = text[b.e:toks[bclose].s]
-            new = "{\nfor %s in %s {%s}\n{\nlet %s = %s;%s}\n}" % (pat, m.group(1).strip(), body, pat, m.group(2), body)
+            new = "{\nfor %s in %s {%s}\n;\n{\nlet %s = %s;%s}\n}" % (pat, m.group(1).strip(), body, pat, m.group(2), body)
             text = text[:t.s] + new + text[toks[bclose].e:]
             log.add("R13"); done = True
             break
